@@ -17,6 +17,7 @@
 #include <stdlib.h>
 #include <string.h>
 #include <unistd.h>
+#include <sys/mman.h>
 
 #include STDH_SNAPSHOT
 
@@ -211,7 +212,10 @@ static void fill_mem(uint8_t* p, size_t n, uint8_t fill) {
   }
 }
 
+static void work_unmap(void);
+
 static void sess_free(void) {
+  work_unmap();
   free(S.obj); free(S.srcmem); free(S.dstmem); free(S.out); free(S.workmem);
   memset(&S, 0, sizeof S);
 }
@@ -515,17 +519,37 @@ static void op_init(void) {
 
 // ---------------------------------------------------------------- work buffer
 
+static int g_cli;
+static void* g_workmap; // work buffer mapped directly (work mode 5 and the CLI mode)
+static size_t g_workmaplen;
+
+static void work_unmap(void) {
+  if (g_workmap) munmap(g_workmap, g_workmaplen);
+  g_workmap = NULL; g_workmaplen = 0;
+}
+
 static void work_setup(uint64_t wmin, uint64_t wmax) {
   free(S.workmem);
   S.workmem = NULL;
+  work_unmap();
   uint64_t n = wmin;
   switch (S.work_mode) {
     case 1: n = wmax; if (n > (1u << 26)) n = wmin > (1u << 26) ? wmin : (1u << 26); break;
     case 2: n = wmin ? wmin - 1 : 0; break;
     case 3: n = 0; break;
     case 4: if (n < (64u << 20) + 273) n = (64u << 20) + 273; break; // ample: sized in advance like upstream's drivers (xz -9 uses a 64 MiB dictionary)
+    case 5: if (n < (64u << 20) + 273) n = (64u << 20) + 273; break; // ample and mapped lazily (zero pages, untouched pages cost nothing)
   }
   if (n > (1ull << 30)) n = 1ull << 30;
+  if (g_cli || S.work_mode == 5) {
+    // mapped directly: no allocator (and no sanitizer shadow) work for pages that are never touched
+    void* m = mmap(NULL, (size_t)(n ? n : 1), PROT_READ | PROT_WRITE, MAP_PRIVATE | MAP_ANONYMOUS | MAP_NORESERVE, -1, 0);
+    if (m == MAP_FAILED) { fprintf(stderr, "stdh: mmap failed\n"); exit(2); }
+    g_workmap = m; g_workmaplen = (size_t)(n ? n : 1);
+    S.work.ptr = (uint8_t*)m;
+    S.work.len = (size_t)n;
+    return;
+  }
   S.workmem = (uint8_t*)malloc(n ? n : 1);
   if (n > (1u << 20)) { memset(S.workmem, 0x5A, (size_t)n); fill_mem(S.workmem, 1u << 16, S.work_fill); }
   else fill_mem(S.workmem, (size_t)n, S.work_fill);
@@ -541,6 +565,16 @@ static int work_regrow(uint64_t wmin) {
   if (S.work_mode == 2) want = wmin ? wmin - 1 : 0;
   if (S.work_mode == 3 || want <= S.work.len) return 1;
   if (want > (1ull << 28)) return 0;
+  if (g_workmap) {
+    void* m = mmap(NULL, (size_t)want, PROT_READ | PROT_WRITE, MAP_PRIVATE | MAP_ANONYMOUS | MAP_NORESERVE, -1, 0);
+    if (m == MAP_FAILED) return 0;
+    if (S.work.len) memcpy(m, S.work.ptr, S.work.len);
+    work_unmap();
+    g_workmap = m; g_workmaplen = (size_t)want;
+    S.work.ptr = (uint8_t*)m;
+    S.work.len = (size_t)want;
+    return 1;
+  }
   uint8_t* nm = (uint8_t*)malloc((size_t)want);
   if (S.work.len) memcpy(nm, S.workmem, S.work.len);
   fill_mem(nm + S.work.len, (size_t)want - S.work.len, S.work_fill);
@@ -1271,7 +1305,10 @@ int main(int argc, char** argv) {
     memset(&S, 0, sizeof S);
     S.k = &g_kinds[kind];
     S.pay = in; S.paylen = len;
-    S.src_exact = 1; S.src_close = 1; S.work_mode = 0;
+    S.src_exact = 1; S.src_close = 1;
+    // ample work buffer, like upstream's own drivers (example/mzcat): an xz stream whose first LZMA2 chunk is
+    // uncompressed reaches add_history with the buffer of the call that parsed the header
+    S.work_mode = 4; g_cli = 1;
     { uint64_t c = 64ull * len + 65536; S.dst_cap = (uint32_t)(c > (1u << 26) ? (1u << 26) : c); }
     S.objsz = S.k->size_of();
     S.obj = malloc(S.objsz);
